@@ -9,6 +9,13 @@ use deno_graph::*;
 use serde_json::Value;
 use serde_json::json;
 
+pub struct EmptyAnalyzer;
+#[async_trait::async_trait(?Send)]
+impl ModuleAnalyzer for EmptyAnalyzer {
+  async fn analyze(&self, _s: &ModuleSpecifier, _t: Arc<str>, _m: MediaType) -> Result<ModuleInfo, deno_error::JsErrorBox> {
+    Ok(ModuleInfo::default())
+  }
+}
 struct Analyzer(ModuleInfo);
 #[async_trait::async_trait(?Send)]
 impl ModuleAnalyzer for Analyzer {
